@@ -236,8 +236,10 @@ class _StubProgram:
         return self._frame
 
 
-def manager_report(case, style="str"):
-    """run the real output manager on the case and read the windows back from the CSV it writes"""
+def manager_report(case, style="str", repeat_tf_site=None):
+    """run the real output manager on the case and read the windows back from the CSV it writes.
+    `repeat_tf_site`: list that site twice in measured_tf_df (an infrastructure with a repeated site
+    id — invalid input, used to document what the pd.merge before the CSV does with it)"""
     from file_processing.output_processing.program_output_manager import ProgramOutputManager
     from constants.param_default_const import Output_Params as op
     from constants.file_name_constants import Output_Files
@@ -253,6 +255,8 @@ def manager_report(case, style="str"):
         emis = pd.DataFrame({c: pd.Series([], dtype=object) for c in EMIS_INFO_COLUMNS_TO_KEEP_FOR_DURATION_ESTIMATION})
         emis[eca.REPAIRABLE] = pd.Series([], dtype=bool)
         sites = sorted({r[0] for r in recs})
+        if repeat_tf_site is not None:
+            sites = sites + [repeat_tf_site]
         tf = pd.DataFrame({DTSC.SITE_ID: [_site_name(s, style) for s in sites],
                            DTSC.SITE_TYPE: ["T"] * len(sites)})
         with warnings.catch_warnings():
